@@ -17,9 +17,21 @@ import (
 
 func init() {
 	vpRegister("c02_roundtrip", vpH_c02_roundtrip)
+	vpRegister("c02_yaml", vpH_c02_yaml)
 }
 
-func vpH_c02_roundtrip() {
+type vpC02World struct {
+	steps  pipeline.Steps
+	step   *pipeline.CommandStep
+	penv   map[string]string
+	pv     string
+	repo   string
+	keySet any
+	venv   map[string]string
+	ok     bool
+}
+
+func vpMkC02World() (w vpC02World) {
 	ctx := context.Background()
 	step := &pipeline.CommandStep{Command: vpStrUpTo(1, "a-c")}
 	if vpBool() {
@@ -84,10 +96,22 @@ func vpH_c02_roundtrip() {
 	if err != nil || step.Signature == nil {
 		return
 	}
+	w.ok = true
 	venv := map[string]string{"UNRELATED": "u"}
 	for k, v := range penv {
 		venv[k] = v
 	}
+	w.steps, w.step, w.penv, w.pv, w.repo, w.keySet, w.venv = steps, step, penv, pv, repo, keySet, venv
+	return w
+}
+
+func vpH_c02_roundtrip() {
+	ctx := context.Background()
+	w := vpMkC02World()
+	if !w.ok {
+		return
+	}
+	steps, step, penv, pv, repo, keySet, venv := w.steps, w.step, w.penv, w.pv, w.repo, w.keySet, w.venv
 
 	// (1) step by step, the way an agent receives a job
 	b, merr := json.Marshal(step)
@@ -142,6 +166,51 @@ func vpH_c02_roundtrip() {
 		vpAssert(ok && ic.Signature != nil, "steps inside groups keep their signatures")
 		if ok && ic.Signature != nil {
 			vpAssert(Verify(ctx, ic.Signature, keySet, &CommandStepWithInvariants{CommandStep: *ic, RepositoryURL: repo}, WithEnv(venv)) == nil, "steps inside groups still verify")
+		}
+	}
+}
+
+// the YAML leg on the node data model (yaml.Marshal's encoder dispatch; the
+// spelling of scalars in bytes is the library's)
+func vpH_c02_yaml() {
+	ctx := context.Background()
+	w := vpMkC02World()
+	if !w.ok {
+		return
+	}
+	p := &pipeline.Pipeline{Steps: w.steps}
+	if len(w.penv) > 0 {
+		p.Env = ordered.NewMap[string, string](2)
+		p.Env.Set("P", w.pv)
+		p.Env.Set("A", "shadowed-or-not")
+	}
+	yb, yerr := yaml.Marshal(p)
+	vpAssert(yerr == nil, "the signed pipeline marshals to YAML")
+	if yerr != nil {
+		return
+	}
+	var n yaml.Node
+	vpAssert(yaml.Unmarshal(yb, &n) == nil, "the YAML form is readable")
+	p2 := new(pipeline.Pipeline)
+	vpAssert(ordered.Unmarshal(&n, p2) == nil, "the signed pipeline re-parses from YAML without warning")
+	vpAssert(len(p2.Steps) == 3, "the step list keeps its length")
+	if len(p2.Steps) != 3 {
+		return
+	}
+	c2, isCmd := p2.Steps[0].(*pipeline.CommandStep)
+	vpAssert(isCmd && c2.Signature != nil, "the signed step is still a command step with its signature (YAML)")
+	if !isCmd || c2.Signature == nil {
+		return
+	}
+	vpAssert(c2.Signature.Value == w.step.Signature.Value, "the signature value survives the YAML round trip")
+	verr := Verify(ctx, c2.Signature, w.keySet, &CommandStepWithInvariants{CommandStep: *c2, RepositoryURL: w.repo}, WithEnv(w.venv))
+	vpAssert(verr == nil, "the re-parsed step still verifies (YAML leg, whole-pipeline path)")
+	g2, isGrp := p2.Steps[2].(*pipeline.GroupStep)
+	if isGrp && len(g2.Steps) == 1 {
+		ic, ok := g2.Steps[0].(*pipeline.CommandStep)
+		vpAssert(ok && ic.Signature != nil, "steps inside groups keep their signatures (YAML)")
+		if ok && ic.Signature != nil {
+			vpAssert(Verify(ctx, ic.Signature, w.keySet, &CommandStepWithInvariants{CommandStep: *ic, RepositoryURL: w.repo}, WithEnv(w.venv)) == nil, "steps inside groups still verify (YAML)")
 		}
 	}
 }
